@@ -535,3 +535,18 @@ fn parse_postgres_interval(s: &str) -> Result<OwnedValue> {
 
     Ok(OwnedValue::Interval(micros, days, months))
 }
+
+#[cfg(kahflane_turdb_verif)]
+pub fn verif_lit_is_leap_year(year: i32) -> bool {
+    is_leap_year(year)
+}
+
+#[cfg(kahflane_turdb_verif)]
+pub fn verif_lit_days_in_month(year: i32, month: u32) -> u32 {
+    days_in_month(year, month)
+}
+
+#[cfg(kahflane_turdb_verif)]
+pub fn verif_lit_date_to_days_since_epoch(year: i32, month: u32, day: u32) -> i32 {
+    date_to_days_since_epoch(year, month, day)
+}
